@@ -114,7 +114,7 @@ func c20(r *core.Run) {
 		for i := 0; i < n; i++ {
 			out = append(out, pool[src.Intn(len(pool))])
 		}
-		return out
+		return uncleanDirs(src, out) // sometimes in a spelling that is not clean
 	}
 	// current options
 	curDirs := []string{"/etc/cdi", "/var/run/cdi"}
